@@ -21,13 +21,17 @@ class Interner:
         return ".".join(str(self(x)) for x in l) if l else "-"
 
 
+FORMS = ["seq", "seq", "dictv", "res1", "res2"]
+
+
 def render_ty(t):
     if t[0] == "prim":
         return t[1]
     if t[0] == "ref":
         own = "".join("[x::a%d] " % a for a in (t[3] if len(t) > 3 else ()))
         return own + ("::" if t[1] else "") + "::".join(t[2])
-    return "Sequence<%s>" % render_ty(t[1])
+    # an anonymous type around the reference that is resolved: a sequence, a dictionary's value, either side of a result
+    return {"seq": "Sequence<%s>", "dictv": "Dictionary<string, %s>", "res1": "Result<%s, bool>", "res2": "Result<int32, %s>"}[t[2] if len(t) > 2 else "seq"] % render_ty(t[1])
 
 
 def render(files):
@@ -69,14 +73,15 @@ def build(files):
             attrs = list(attrs) + (list(t[3]) if len(t) > 3 else [])
             return "n:%d:%s:%s:%s" % (1 if t[1] else 0, I.segs(t[2]), ".".join(str(a) for a in attrs) or "-", I.segs(mod))
         nid[0] += 1
-        desc[nid[0]] = ("prim", t[1]) if t[0] == "prim" else ("seq",)
+        desc[nid[0]] = ("prim", t[1]) if t[0] == "prim" else ({"seq": "seq", "dictv": "dict", "res1": "res", "res2": "res"}[t[2] if len(t) > 2 else "seq"],)
         return "a:%d:%s:%s" % (nid[0], "prim" if t[0] == "prim" else "anon", ".".join(str(a) for a in attrs) or "-")
 
     def q(x, mod, t, own_attrs=(), group=None):
         """a reference position; for Sequence<ref> the inner reference is the one that is resolved"""
-        inner = 0
+        inner = []
         while t[0] == "seq":
-            t = t[1]; inner += 1
+            inner.append(t[2] if len(t) > 2 else "seq")
+            t = t[1]
         if t[0] == "prim":
             queries.append(None)
             return
@@ -195,7 +200,7 @@ def gen_program(rng, small):
                 if r < 0.15:
                     return ("prim", rng.choice(PRIMS))
                 if r < 0.3:
-                    return ("seq", ref())
+                    return ("seq", ref(), rng.choice(FORMS))
                 return ref()
             k = rng.choice(["struct", "struct", "alias", "alias", "alias", "iface", "enum", "custom"])
             if k == "struct":
@@ -256,15 +261,15 @@ def chain_family(rng, n):
                 tgt = ("ref", True, mods[i + 1] + ["L%d" % (i + 1)]) if rng.random() < 0.5 else ("ref", False, mods[i + 1] + ["L%d" % (i + 1)])
             else:
                 tgt = {"struct": ("ref", True, mods[L] + ["T"]), "custom": ("ref", True, mods[L] + ["T"]), "iface": ("ref", True, mods[L] + ["T"]), "enum": ("ref", True, mods[L] + ["T"]),
-                       "prim": ("prim", "string"), "seq": ("seq", ("prim", "int32")), "loop": ("ref", True, mods[rng.randrange(0, L)] + ["L%d" % 0]), "missing": ("ref", False, ["Nope"])}[end]
+                       "prim": ("prim", "string"), "seq": ("seq", ("prim", "int32"), rng.choice(FORMS)), "loop": ("ref", True, mods[rng.randrange(0, L)] + ["L%d" % 0]), "missing": ("ref", False, ["Nope"])}[end]
                 if end == "loop":
                     j = rng.randrange(0, L)
                     tgt = ("ref", True, mods[j] + ["L%d" % j])
             files.append({"module": mods[i], "defs": [("alias", "L%d" % i, tgt, [rng.randrange(1, 9) for _ in range(rng.choice([0, 1, 2]))])]})
         if end in ("struct", "custom", "iface", "enum"):
             files.append({"module": mods[L], "defs": [{"struct": ("struct", "T", []), "custom": ("custom", "T"), "iface": ("iface", "T", [], []), "enum": ("enum", "T", None)}[end]]})
-        files.append({"module": mods[0], "defs": [("struct", "U", [("u", ("ref", False, ["L0"])), ("v", ("seq", ("ref", True, mods[0] + ["L0"]))), ("w", ("ref", False, ["L0"], (9, 4))),
-                                                                      ("x", ("seq", ("ref", False, ["L0"], (3,))))]),
+        files.append({"module": mods[0], "defs": [("struct", "U", [("u", ("ref", False, ["L0"])), ("v", ("seq", ("ref", True, mods[0] + ["L0"]), rng.choice(FORMS))), ("w", ("ref", False, ["L0"], (9, 4))),
+                                                                      ("x", ("seq", ("ref", False, ["L0"], (3,)), rng.choice(FORMS)))]),
                                                    ("iface", "W", [("ref", False, ["L0"])], []), ("enum", "E", ("ref", False, ["L0"]))]})
         rng.shuffle(files)
         progs.append(files)
@@ -280,7 +285,7 @@ def run(ck):
     texts = [render(p) for p, _ in progs]
     m = core.run_model("resolve", [b[0] for b in built], chunk=2000)
     o = core.run_impl("dump", ["dump - " + " ".join(hx(t) for t in ts) for ts in texts], chunk=500, timeout=120)
-    ck.stream("bindings", description="multi-file programs over modules A, A::B, A::B::C, B, D with colliding names, 9+ reference spellings, alias chains with attributes; observable per reference: the bound definition (kind, scoped id) and its inherited attributes, or unpatched with E017/E033 at the reference")
+    ck.stream("bindings", description="multi-file programs over modules A, A::B, A::B::C, B, D with colliding names, 9+ reference spellings, alias chains with attributes ending in each kind of target (also a sequence, dictionary or result type); references inside sequences, dictionary values and results; observable per reference: the bound definition (kind, scoped id) and its inherited attributes, or unpatched with E017/E033 at the reference")
     nrefs = 0
     for (prog, fam), (line, queries, desc), ts, mo, oo in zip(progs, built, texts, m, o):
         ck.count("bindings", line, kind=fam)
@@ -316,9 +321,10 @@ def run(ck):
                 continue
             r = res[ri]; ri += 1
             nrefs += 1
-            for _ in range(qd["inner"]):
-                if len(tr) > 4 and tr[4][0] == "seq":
-                    tr = tr[4][1]
+            for form in qd["inner"]:
+                kind, at = {"seq": ("seq", 1), "dictv": ("dict", 2), "res1": ("res", 1), "res2": ("res", 2)}[form]
+                if len(tr) > 4 and tr[4][0] == kind:
+                    tr = tr[4][at]
             if len(tr) < 5:
                 continue
             obs, oattrs, ospan = observed_of(tr)
